@@ -99,6 +99,7 @@ def _work(args):
         out['solver_time'] = res.solver_time
         reached = 0
         seen_fail = set()
+        profiled = 0
         for n, p in enumerate(res.paths):
             out['decisions'] += p.decisions
             if p.outcome == 'ignored':
@@ -116,7 +117,8 @@ def _work(args):
                 out['errors'].append({'label': p.label, 'detail': p.detail, 'model': p.model})
                 continue
             # witness cross-validation / replay in the plain interpreter against the unstubbed code
-            if n < 3:
+            profiled += 1
+            if profiled <= 3:
                 c = _profile_census(explore.run_concrete, run, p.model, True)
             else:
                 c = explore.run_concrete(run, p.model, True)
